@@ -276,6 +276,12 @@ def codec_family(tier: str, seed: int = 0, include_enums=True):
     add(single([("a", 5, ("f32",)), ("b", 3, ("opt", ("u", 8))), ("c", 4, ("u", 1))]))
     add(Schema(structs=[("In", [("q", 1, ("i", 11)), ("p", 0, ("u", 5))]),
                         ("S", [("y", 1, ("u", 2)), ("x", 0, ("struct", "In"))])]))
+    # ... also for a struct that is reached through every container kind (element of an array, of a dynamic array, of an
+    # optional, nested twice): each path to a struct must sort its fields
+    rev = ("Rv", [("q", 1, ("i", 11)), ("r", 2, ("u", 3)), ("p", 0, ("u", 5))])
+    for t in [("arr", ("struct", "Rv"), 2), ("dyn", ("struct", "Rv")), ("opt", ("struct", "Rv")),
+              ("arr", ("opt", ("struct", "Rv")), 2), ("dyn", ("arr", ("struct", "Rv"), 2))]:
+        add(single([("u", 3), t, ("i", 4)], structs=[rev]))
     if tier == "thorough":
         rng = random.Random(seed)
         for _ in range(150):
